@@ -69,6 +69,7 @@ def in_anchor_files(b):
 
 
 def run(F, R, tier):
+    _round6(F, R)
     # ---------------- C03-a ------------------------------------------------
     pend = [n for n in F.all_nodes() if ctor_of(n) == "graph::ModuleSlot::Pending" and not n["_top"].get("derived")]
     R.floor("C03-a constructions of ModuleSlot::Pending", len(pend), 2)
@@ -465,3 +466,27 @@ def run(F, R, tier):
                 R.ob("C03-g", "catch-all arm over loader outcomes in %s maps to an error" % b["path"], not produces_ok,
                      "a catch-all arm `%s` turns unlisted loader outcomes into success" % pat_text(arm["pat"]), where(arm["body"]))
     R.floor("C03-g matches over loader outcomes", n_res, 6)
+
+
+def _round6(F, R):
+    # C03-c: a loader response is parsed under the specifier the loader answered
+    # with; the redirect decision (and with it the settling of the request's
+    # Pending slot) is taken from that specifier
+    n_sites = 0
+    for b in F.bodies:
+        if not b["path"].startswith("graph::Builder::"):
+            continue
+        for n in b["_nodes"]:
+            if n.get("k") == "Struct" and (n.get("adt") or "").endswith("ParseModuleAndSourceInfoOptions"):
+                g = guards_at(F, n, stop_at_async=False)
+                resp = [x for x in g if x.kind == "pat" and x.pol and "LoadResponse::Module" in pat_text(x.pat)]
+                if not resp:
+                    continue
+                n_sites += 1
+                binds = {p_["lid"] for x in resp for p_ in pat_bindings(x.pat)}
+                f = {x["name"]: x["e"] for x in n["fields"]}
+                ok = "specifier" in f and any(peel_value(y).get("lid") in binds for y in through_locals(f["specifier"]))
+                R.ob("C03-c", "a loader response is parsed under the specifier the loader answered with [%s]" % b["path"].split("::")[-1], ok,
+                     "a LoadResponse::Module is parsed with `specifier: %s` instead of the response's own specifier: when the loader answered with another url, no redirect is recorded and the request's Pending slot is never settled ([INTERNAL ERROR] in the serialised graph)" % expr_text(f.get("specifier", {}))[:40],
+                     where(n), key="C03|C03-c|response-specifier|%s" % b["path"].split("::")[-1])
+    R.floor("C03-c loader responses parsed in the builder", n_sites, 3)
